@@ -68,13 +68,16 @@ def esc_member(name, c):
     raise ValueError("escape " + name)
 
 
-def case_variants(c):
-    """the characters equal to c under simple case folding, within what the alphabets use"""
-    out = {c}
-    for x in (c.lower(), c.upper()):
+def fold(c):
+    """simple case folding (single-character results only)"""
+    for x in (c.casefold(), c.lower()):
         if len(x) == 1:
-            out.add(x)
-    return out
+            return x
+    return c
+
+
+def same_case(a, b):
+    return a == b or fold(a) == fold(b)
 
 
 def cls_member(node, c, ci):
@@ -82,10 +85,10 @@ def cls_member(node, c, ci):
     inn = False
     for it in items:
         if it[0] == "c":
-            inn = inn or (c in case_variants(it[1]) if ci else c == it[1])
+            inn = inn or (same_case(c, it[1]) if ci else c == it[1])
         elif it[0] == "r":
             if ci:
-                inn = inn or any(it[1] <= v <= it[2] for v in case_variants(c))
+                inn = inn or it[1] <= c <= it[2] or any(same_case(c, chr(o)) for o in range(ord(it[1]), min(ord(it[2]), ord(it[1]) + 400) + 1))
             else:
                 inn = inn or it[1] <= c <= it[2]
         else:
